@@ -578,7 +578,8 @@ func propC17(c *Ctx) {
 	// holds is data, not code shape – the accepted set and the digit values are then not decided here
 	byTable := false
 	if len(ranges) == 0 {
-		allInstrs(dec, func(in ssa.Instruction) {
+		dreg := NewRegion(dec) // the table may have a look-up method of its own (nibbles.value(b[i]))
+		dreg.AllInstrs(func(in ssa.Instruction) {
 			var base, idx ssa.Value
 			switch x := in.(type) {
 			case *ssa.IndexAddr:
@@ -589,15 +590,16 @@ func propC17(c *Ctx) {
 			if base == nil {
 				return
 			}
-			if _, isGlobal := stripConv(base).(*ssa.Global); !isGlobal {
-				if u, ok := stripConv(base).(*ssa.UnOp); !ok {
+			base = stripConv(dreg.Resolve(stripConv(base)))
+			if _, isGlobal := base.(*ssa.Global); !isGlobal {
+				if u, ok := base.(*ssa.UnOp); !ok {
 					return
 				} else if _, isG := u.X.(*ssa.Global); !isG {
 					return
 				}
 			}
 			// indexed by a byte of the token
-			iv := stripNum(idx)
+			iv := stripNum(dreg.Resolve(stripNum(idx)))
 			switch y := iv.(type) {
 			case *ssa.Index:
 				if stripConv(y.X) == ssa.Value(dec.Params[0]) {
